@@ -1688,7 +1688,7 @@ class TwoPort(Network, TwoPortMixin):
 
     @property
     def V2g(self):
-        return self.V2b - LaplaceDomainVoltage(self._B21 / self._B22 * self.I2b)
+        return self.V2b - LaplaceDomainVoltage(self._B12 / self._B22 * self.I2b)
 
     @property
     def V1h(self):
@@ -1696,7 +1696,7 @@ class TwoPort(Network, TwoPortMixin):
 
     @property
     def I2h(self):
-        return LaplaceDomainCurrent(-self.V2b * self._B21 / self._B11) - self.I2b
+        return LaplaceDomainCurrent(self.V2b * self._B21 / self._B11) - self.I2b
 
     @property
     def I1y(self):
@@ -2242,8 +2242,8 @@ class TwoPortBModel(TwoPort):
     """
 
     model = 'B'
-    input = ('V1', '-I1')
-    output = ('V2', 'I2')
+    input = ('V1', 'I1')
+    output = ('V2', '-I2')
     offset = ('V2b', 'I2b')
 
     def __init__(self, B11=None, B12=None, B21=None, B22=None,
@@ -2311,7 +2311,7 @@ class TwoPortBModel(TwoPort):
 
     @property
     def I2h(self):
-        return LaplaceDomainCurrent(-self.V2b * self._B21 / self._B11) - self.I2b
+        return LaplaceDomainCurrent(self.V2b * self._B21 / self._B11) - self.I2b
 
     @property
     def I1y(self):
@@ -2480,7 +2480,7 @@ class TwoPortGModel(TwoPort):
         """Return V2b"""
 
         # return self._V2g - LaplaceDomainVoltage(self._I1g / self.Gparams._G12)
-        return self._V2g - LaplaceDomainVoltage(self._I1g * self.B21)
+        return self._V2g - LaplaceDomainVoltage(self._I1g * self.B12)
 
     @property
     def I2b(self):
@@ -2588,7 +2588,7 @@ class TwoPortHModel(TwoPort):
     def I2b(self):
         """Return I2b"""
 
-        return LaplaceDomainCurrent(-self.H22 / self.H12 * self.V1h) - self.I2h
+        return LaplaceDomainCurrent(self.H22 / self.H12 * self.V1h) - self.I2h
 
     @property
     def V1h(self):
